@@ -295,7 +295,12 @@ class Output(IOutput, Loggable):
                 self._total_mem / 1048576,
             )
             self._mem_counter += 1
-            np.save(fn, data.magnitude)
+            if np.ma.isMaskedArray(data.magnitude):
+                # np.save can't handle masked arrays
+                with open(fn, "wb") as file:
+                    data.magnitude.dump(file)
+            else:
+                np.save(fn, data.magnitude)
             return fn
 
         self._total_mem += data_size
